@@ -272,3 +272,46 @@ def rule_sibling_index_readers(ctx, rep, rid: str) -> None:
             rep.ok(rid, key, {"conversion": [sa_[0], sb_[0]], "guard": sa_[1]})
         else:
             rep.bad(rid, key, f"{a} converts its index with `{sa_[0]}` under `{sa_[1]}` but {b} with `{sb_[0]}` under `{sb_[1]}`: the specification gives both the same steps (ToIntegerOrInfinity, then a two-sided range test), so for some argument (a negative one, say) one of them answers for the wrong position", fb.loc)
+
+
+# ---- the host's white space is not ECMAScript's ---------------------------------------------------------
+def rule_script_whitespace(ctx, rep, rid: str, only=None) -> None:
+    """str.strip()/lstrip()/rstrip()/split() without an argument and str.isspace() use the host's white-space set:
+    it includes U+001C..U+001F and U+0085, which ECMAScript does not trim, and lacks U+FEFF, which it does."""
+    rep.rule(rid, "script strings are never trimmed or split on white space with the host's default set (bare str.strip/lstrip/rstrip/split, str.isspace): ECMAScript's WhiteSpace and LineTerminator set differs from it in both directions", floor=1)
+    ctl = ast.parse("def f(s):\n    return s.strip()\n")
+    if not [n for n in ast.walk(ctl) if isinstance(n, ast.Call) and isinstance(n.func, ast.Attribute) and n.func.attr == "strip" and not n.args]:
+        raise AnalysisError("positive control failed")
+    n_sites = 0
+    for f in ctx.tree.funcs:
+        if isinstance(f.node, ast.Lambda) or f.module.name not in ("vm", "context", "values") or (only is not None and not only(f.qual)):
+            continue
+        for n in f.own_nodes():
+            if isinstance(n, ast.Call) and isinstance(n.func, ast.Attribute) and n.func.attr in ("strip", "lstrip", "rstrip", "split", "isspace"):
+                if n.func.attr == "split" and (n.args or n.keywords):
+                    continue
+                n_sites += 1
+                key = f"{f.qual}:{short(n, 40)}"
+                if n.func.attr != "isspace" and n.args:
+                    rep.ok(rid, key, {"set": short(n.args[0], 30)})
+                else:
+                    rep.bad(rid, key, f"{f.qual} uses {short(n, 40)}: the host's white-space set keeps U+FEFF and removes U+001C..U+001F, unlike ECMAScript's (\"\\ufeffa\".trim() keeps the BOM)", f"{f.module.rel}:{n.lineno}")
+    rep.ok(rid, "whitespace-sites", {"examined": n_sites})
+
+
+def rule_includes_same_value_zero(ctx, rep, rid: str) -> None:
+    """Array.prototype.includes compares with SameValueZero (NaN is found); indexOf with strict equality."""
+    rep.rule(rid, "the includes natives of arrays treat NaN as equal to NaN (SameValueZero) on top of the strict comparison they share with indexOf", floor=1)
+    n = 0
+    for f in ctx.tree.funcs:
+        if f.name not in ("includes_fn",) or f.parent is None or "array" not in f.parent.name.lower():
+            continue
+        n += 1
+        key = f"{f.qual}:NaN"
+        txt = " ; ".join(norm(s_) for s_ in f.body())
+        if "is_nan(" in txt or "math.isnan(" in txt or " != " in txt and any(isinstance(c, ast.Compare) and isinstance(c.ops[0], ast.NotEq) and norm(c.left) == norm(c.comparators[0]) for c in f.own_nodes()):
+            rep.ok(rid, key)
+        else:
+            rep.bad(rid, key, f"{f.qual} compares elements with strict equality only: NaN === NaN is false, so [NaN].includes(NaN) is false although includes is specified with SameValueZero", f.loc)
+    if n == 0:
+        raise AnalysisError("array includes native not found")
